@@ -530,4 +530,430 @@ end
 
 end
 
+/-! ### every table of the loop stays below every strict post-fix-point -/
+
+theorem le_of_absorbed {k old : Kind} (h : old = k ∨ unifyK k old = .ok old) : le (some k) (some old) := by
+  rcases h with h | h
+  · subst h; exact le_refl _
+  · exact Or.inr ((unifyK_ok _ _ _).mp h)
+
+/-- the entry for `n` exists and is at least `k` -/
+def Above (T : Table) (ph n : Name) (k : Kind) : Prop := ∃ old, T.get ph n = some old ∧ le (some k) (some old)
+
+theorem set_below {t T : Table} {ph n : Name} {k : Kind} (h : TLe t T) (ha : Above T ph n k) :
+    TLe (t.set ph n k) T := by
+  obtain ⟨old, hold, lk⟩ := ha
+  have hupd : ∀ v, le (some v) (some old) →
+      TLe { entries := updateE t.entries (scope ph n, n) v, changed := true } T := by
+    intro v lv key kk hl
+    simp only [lookupE_updateE] at hl
+    split at hl
+    · rename_i heq
+      cases hl
+      exact ⟨old, heq ▸ hold, lv⟩
+    · exact h key kk hl
+  unfold Table.set
+  simp only
+  cases ho : lookupE t.entries (scope ph n, n) with
+  | none => simp only; exact hupd k lk
+  | some o =>
+    simp only
+    split
+    · exact h
+    · cases hu : unifyK k o with
+      | error e => simp only; exact h
+      | ok k' =>
+        simp only
+        split
+        · exact h
+        · apply hupd
+          obtain ⟨o', ho', lo⟩ := h _ o ho
+          have : o' = old := by
+            have : lookupE T.entries (scope ph n, n) = some old := hold
+            rw [ho'] at this; cases this; rfl
+          subst this
+          exact unify_least _ _ _ _ ((unifyK_ok _ _ _).mp hu) lk lo
+
+theorem set_above (t : Table) (ph n : Name) (k : Kind) : TLe t (t.set ph n k) := by
+  have hupd : ∀ v, (∀ o, lookupE t.entries (scope ph n, n) = some o → le (some o) (some v)) →
+      TLe t { entries := updateE t.entries (scope ph n, n) v, changed := true } := by
+    intro v hv key kk hl
+    simp only [lookupE_updateE]
+    split
+    · rename_i heq
+      subst heq
+      exact ⟨v, rfl, hv kk hl⟩
+    · exact ⟨kk, hl, le_refl _⟩
+  unfold Table.set
+  simp only
+  cases ho : lookupE t.entries (scope ph n, n) with
+  | none => simp only; exact hupd k (fun o h => by rw [ho] at h; cases h)
+  | some o =>
+    simp only
+    split
+    · exact TLe.refl t
+    · cases hu : unifyK k o with
+      | error e => simp only; exact TLe.refl t
+      | ok k' =>
+        simp only
+        split
+        · exact TLe.refl t
+        · apply hupd
+          intro o' ho'
+          rw [ho] at ho'
+          cases ho'
+          exact unify_upper_right _ _ _ ((unifyK_ok _ _ _).mp hu)
+
+theorem setLoops_below {T : Table} {ph : Name} : ∀ (is : List Name) (t : Table), TLe t T →
+    (∀ i ∈ is, Above T ph i .integer) → TLe (setLoops t ph is) T
+  | [], t, h, _ => h
+  | i :: is, t, h, ha =>
+    setLoops_below is _ (set_below h (ha i List.mem_cons_self)) (fun j hj => ha j (List.mem_cons_of_mem _ hj))
+
+theorem setLoops_above (ph : Name) : ∀ (is : List Name) (t : Table), TLe t (setLoops t ph is)
+  | [], t => TLe.refl t
+  | i :: is, t => (set_above t ph i .integer).trans (setLoops_above ph is _)
+
+theorem setZip_below {T : Table} {ph : Name} : ∀ (ns : List Name) (ks ks' : List Kind) (t : Table), TLe t T →
+    KsLe ks ks' → (∀ p ∈ zipNK ns ks', Above T ph p.1 p.2) → TLe (setZip t ph ns ks) T
+  | [], ks, _, t, h, _, _ => by simpa [setZip] using h
+  | n :: ns, [], _, t, h, _, _ => by simpa [setZip] using h
+  | n :: ns, k :: ks, ks', t, h, hks, ha => by
+    cases hks with
+    | cons l0 lrest =>
+      rename_i k' ks''
+      simp only [setZip]
+      apply setZip_below ns ks ks'' _ _ lrest (fun p hp => ha p (by simp [zipNK, hp]))
+      apply set_below h
+      obtain ⟨old, hold, l⟩ := ha (n, k') (by simp [zipNK])
+      exact ⟨old, hold, le_trans _ _ _ l0 l⟩
+
+theorem setZip_above (ph : Name) : ∀ (ns : List Name) (ks : List Kind) (t : Table), TLe t (setZip t ph ns ks)
+  | [], _, t => by simpa [setZip] using TLe.refl t
+  | _ :: _, [], t => by simpa [setZip] using TLe.refl t
+  | n :: ns, k :: ks, t => by
+    simp only [setZip]; exact (set_above t ph n k).trans (setZip_above ph ns ks _)
+
+/-- strict post-fix-point of the rule of one statement (no unification failure swallowed) -/
+def StmtFixS (reg : Registry) (T : Table) (ph : Name) : KStmt → Prop
+  | .assign lhs hasSub _ flat loops =>
+    (∀ i ∈ loops, Above T ph i .integer) ∧
+    (hasSub = false → ∃ k, infer false reg T ph flat = .ok k ∧ Above T ph lhs k)
+  | .callAssign lhs f args kw =>
+    ∃ ks, inferCall false reg T ph f args kw = .ok ks ∧ ∀ p ∈ zipNK lhs ks, Above T ph p.1 p.2
+  | .other => True
+
+theorem inferCall_mono (reg : Registry) (t T : Table) (ph : Name) (hph : ph ≠ "") (hw : WellScoped t)
+    (hW : WellScoped T) (hle : TLe t T) (hreg : RegMono reg) (f : Name) (args : List Expr) (kw : List (Name × Expr))
+    (ks ks' : List Kind) (h : inferCall false reg t ph f args kw = .ok ks)
+    (h' : inferCall false reg T ph f args kw = .ok ks') : KsLe ks ks' := by
+  unfold inferCall at h h'
+  cases hf : reg f with
+  | none => simp [hf] at h
+  | some fn =>
+    simp only [hf, bind, Except.bind] at h h'
+    cases ha : inferArgs false reg t ph args with
+    | error e => simp [ha] at h
+    | ok ak =>
+      cases hk : inferKw false reg t ph kw with
+      | error e => simp [ha, hk] at h
+      | ok kk =>
+        cases hA : inferArgs false reg T ph args with
+        | error e => simp [hA] at h'
+        | ok ak' =>
+          cases hK : inferKw false reg T ph kw with
+          | error e => simp [hA, hK] at h'
+          | ok kk' =>
+            simp only [ha, hk] at h
+            simp only [hA, hK] at h'
+            have la := (inferArgs_mono reg t T ph hph hw hW hle hreg args ak ha).1 ak' hA
+            have lk := (inferKw_mono reg t T ph hph hw hW hle hreg kw kk hk).1 kk' hK
+            cases hfn : fn false ak kk with
+            | error e => simp [hfn] at h
+            | ok r =>
+              obtain ⟨r', hr', lr⟩ := hreg f fn hf ak ak' kk kk' r la lk hfn
+              simp only [hfn, Except.ok.injEq] at h
+              simp only [hr', Except.ok.injEq] at h'
+              subst h; subst h'
+              exact lr
+
+theorem processStmt_below (reg : Registry) (hreg : RegMono reg) (t T : Table) (ph : Name) (hph : ph ≠ "")
+    (hw : WellScoped t) (hW : WellScoped T) (hle : TLe t T) (s : KStmt) (hfix : StmtFixS reg T ph s) (t' : Table)
+    (h : (processStmt reg t ph s).table? = some t') : TLe t' T := by
+  cases s with
+  | assign lhs hasSub rhs flat loops =>
+    obtain ⟨hl, ha⟩ := hfix
+    have h1 : TLe (setLoops t ph loops) T := setLoops_below loops t hle hl
+    have hw1 : WellScoped (setLoops t ph loops) := setLoops_wellScoped ph hph loops t hw
+    simp only [processStmt] at h
+    cases hasSub with
+    | true => simp [Outcome.table?] at h; rw [← h]; exact h1
+    | false =>
+      simp only [cond_false] at h
+      obtain ⟨k', hk', hab⟩ := ha rfl
+      cases hi : infer false reg (setLoops t ph loops) ph flat with
+      | error e =>
+        simp only [hi] at h
+        cases e <;> simp [Outcome.table?] at h
+        rw [← h]; exact h1
+      | ok k =>
+        simp only [hi, Outcome.table?, Option.some.injEq] at h
+        rw [← h]
+        apply set_below h1
+        obtain ⟨old, hold, l⟩ := hab
+        have lk := (infer_mono reg _ T ph hph hw1 hW h1 hreg flat k hi).1 k' hk'
+        exact ⟨old, hold, le_trans _ _ _ lk l⟩
+  | callAssign lhs f args kw =>
+    obtain ⟨ks', hks', hab⟩ := hfix
+    simp only [processStmt] at h
+    cases hi : inferCall false reg t ph f args kw with
+    | error e =>
+      simp only [hi] at h
+      cases e <;> simp [Outcome.table?] at h
+      rw [← h]; exact hle
+    | ok ks =>
+      simp only [hi, Outcome.table?, Option.some.injEq] at h
+      rw [← h]
+      exact setZip_below lhs ks ks' t hle (inferCall_mono reg t T ph hph hw hW hle hreg f args kw ks ks' hi hks') hab
+  | other =>
+    simp only [processStmt, Outcome.table?, Option.some.injEq] at h
+    rw [← h]; exact hle
+
+theorem processStmt_above (reg : Registry) (t : Table) (ph : Name) (s : KStmt) (t' : Table)
+    (h : (processStmt reg t ph s).table? = some t') : TLe t t' := by
+  cases s with
+  | assign lhs hasSub rhs flat loops =>
+    simp only [processStmt] at h
+    have h1 := setLoops_above ph loops t
+    cases hasSub with
+    | true => simp [Outcome.table?] at h; rw [← h]; exact h1
+    | false =>
+      simp only [cond_false] at h
+      cases hi : infer false reg (setLoops t ph loops) ph flat with
+      | error e =>
+        simp only [hi] at h
+        cases e <;> simp [Outcome.table?] at h
+        rw [← h]; exact h1
+      | ok k =>
+        simp only [hi, Outcome.table?, Option.some.injEq] at h
+        rw [← h]
+        exact h1.trans (set_above _ ph lhs k)
+  | callAssign lhs f args kw =>
+    simp only [processStmt] at h
+    cases hi : inferCall false reg t ph f args kw with
+    | error e =>
+      simp only [hi] at h
+      cases e <;> simp [Outcome.table?] at h
+      rw [← h]; exact TLe.refl t
+    | ok ks =>
+      simp only [hi, Outcome.table?, Option.some.injEq] at h
+      rw [← h]
+      exact setZip_above ph lhs ks t
+  | other =>
+    simp only [processStmt, Outcome.table?, Option.some.injEq] at h
+    rw [← h]; exact TLe.refl t
+
+/-- what a sweep needs of its work: phases are named, and `T` is a strict post-fix-point -/
+def WorkOK (reg : Registry) (T : Table) (l : List (Name × KStmt)) : Prop :=
+  ∀ p ∈ l, p.1 ≠ "" ∧ StmtFixS reg T p.1 p.2
+
+theorem sweep_below (reg : Registry) (hreg : RegMono reg) (T : Table) (hW : WellScoped T) :
+    ∀ (fuel : Nat) (t : Table) (queue buffer : List (Name × KStmt)) (progress : Bool) (tf : Table),
+    WorkOK reg T (queue ++ buffer) → WellScoped t → TLe t T →
+    sweep reg fuel t queue buffer progress = .ok tf → TLe tf T ∧ TLe t tf
+  | 0, _, _, _, _, _, _, _, _, h => by simp [sweep] at h
+  | fuel + 1, t, queue, buffer, progress, tf, hwork, hw, hle, h => by
+    unfold sweep at h
+    cases hq : queue.reverse with
+    | nil =>
+      have hqe : queue = [] := by simpa using hq
+      simp only [hq] at h
+      cases buffer with
+      | nil => simp only at h; cases h; exact ⟨hle, TLe.refl _⟩
+      | cons b bs =>
+        simp only at h
+        cases progress with
+        | false => simp at h
+        | true =>
+          simp only [cond_true] at h
+          exact sweep_below reg hreg T hW fuel t (b :: bs) [] false tf (by simpa [hqe] using hwork) hw hle h
+    | cons last restRev =>
+      obtain ⟨ph, s⟩ := last
+      have hqe : queue = restRev.reverse ++ [(ph, s)] := by
+        have := congrArg List.reverse hq
+        simpa using this
+      obtain ⟨hph1, hfix1⟩ := hwork (ph, s) (by rw [hqe]; simp)
+      have hrest : WorkOK reg T (restRev.reverse ++ (buffer ++ [(ph, s)])) := by
+        intro p hp
+        simp only [List.mem_append, List.mem_singleton] at hp
+        rcases hp with hp | hp | rfl
+        · exact hwork p (by rw [hqe]; simp [List.mem_append, hp])
+        · exact hwork p (by simp [List.mem_append, hp])
+        · exact ⟨hph1, hfix1⟩
+      have hrest' : WorkOK reg T (restRev.reverse ++ buffer) := by
+        intro p hp
+        apply hrest p
+        simp only [List.mem_append] at hp ⊢
+        rcases hp with hp | hp
+        · exact Or.inl hp
+        · exact Or.inr (Or.inl hp)
+      simp only [hq] at h
+      cases ho : processStmt reg t ph s with
+      | fail e => simp [ho] at h
+      | done t' =>
+        simp only [ho] at h
+        have ht : (processStmt reg t ph s).table? = some t' := by simp [ho, Outcome.table?]
+        obtain ⟨r1, r2⟩ := sweep_below reg hreg T hW fuel t' _ _ _ tf hrest'
+          (processStmt_wellScoped reg t ph hph1 s t' ht hw)
+          (processStmt_below reg hreg t T ph hph1 hw hW hle s hfix1 t' ht) h
+        exact ⟨r1, (processStmt_above reg t ph s t' ht).trans r2⟩
+      | skipped t' =>
+        simp only [ho] at h
+        have ht : (processStmt reg t ph s).table? = some t' := by simp [ho, Outcome.table?]
+        obtain ⟨r1, r2⟩ := sweep_below reg hreg T hW fuel t' _ _ _ tf hrest'
+          (processStmt_wellScoped reg t ph hph1 s t' ht hw)
+          (processStmt_below reg hreg t T ph hph1 hw hW hle s hfix1 t' ht) h
+        exact ⟨r1, (processStmt_above reg t ph s t' ht).trans r2⟩
+      | retry t' =>
+        simp only [ho] at h
+        have ht : (processStmt reg t ph s).table? = some t' := by simp [ho, Outcome.table?]
+        obtain ⟨r1, r2⟩ := sweep_below reg hreg T hW fuel t' _ _ _ tf (by simpa [List.append_assoc] using hrest)
+          (processStmt_wellScoped reg t ph hph1 s t' ht hw)
+          (processStmt_below reg hreg t T ph hph1 hw hW hle s hfix1 t' ht) h
+        exact ⟨r1, (processStmt_above reg t ph s t' ht).trans r2⟩
+
+theorem outer_below (reg : Registry) (hreg : RegMono reg) (T : Table) (hW : WellScoped T)
+    (prog : List (Name × KStmt)) (hwork : WorkOK reg T prog) :
+    ∀ (fuel : Nat) (t tf : Table), WellScoped t → TLe t T → outer reg prog fuel t = .ok tf → TLe tf T ∧ TLe t tf
+  | 0, _, _, _, _, h => by simp [outer] at h
+  | fuel + 1, t, tf, hw, hle, h => by
+    unfold outer at h
+    cases hs : sweep reg (sweepFuel prog.length) { t with changed := false } prog [] false with
+    | error e => simp [hs] at h
+    | ok t' =>
+      have hph : ∀ p ∈ prog ++ [], p.1 ≠ "" := by intro p hp; exact (hwork p (by simpa using hp)).1
+      obtain ⟨b1, b2⟩ := sweep_below reg hreg T hW _ { t with changed := false } prog [] false t'
+        (by simpa using hwork) hw hle hs
+      have hw' : WellScoped t' := sweep_wellScoped reg _ { t with changed := false } prog [] false t' hph hw hs
+      simp only [hs] at h
+      cases hc : t'.changed with
+      | true =>
+        simp only [hc, cond_true] at h
+        obtain ⟨r1, r2⟩ := outer_below reg hreg T hW prog hwork fuel t' tf hw' b1 h
+        exact ⟨r1, TLe.trans b2 r2⟩
+      | false =>
+        simp only [hc, cond_false] at h
+        have htf : t' = tf := by simpa using h
+        subst htf
+        exact ⟨b1, b2⟩
+
+/-- **the returned table is below every strict post-fix-point above the initial table, and above
+    the initial table itself** -/
+theorem inferAll_least (reg : Registry) (hreg : RegMono reg) (prog : List (Name × KStmt)) (t : Table)
+    (h : inferAll reg prog = .ok t) (T : Table) (hW : WellScoped T) (hwork : WorkOK reg T prog)
+    (hinit : TLe Table.init T) : TLe t T ∧ TLe Table.init t := by
+  unfold inferAll at h
+  cases ho : outer reg prog (4 * countNames prog + 4) Table.init with
+  | error e => simp [ho, bind, Except.bind] at h
+  | ok t' =>
+    simp only [ho, bind, Except.bind] at h
+    cases hf : finalCheck reg t' prog with
+    | error e => simp [hf] at h
+    | ok _ =>
+      simp only [hf] at h
+      have htf : t' = t := by simpa using h
+      subst htf
+      exact outer_below reg hreg T hW prog hwork _ _ _ wellScoped_init hinit ho
+
+theorem sweep_above (reg : Registry) :
+    ∀ (fuel : Nat) (t : Table) (queue buffer : List (Name × KStmt)) (progress : Bool) (tf : Table),
+    sweep reg fuel t queue buffer progress = .ok tf → TLe t tf
+  | 0, _, _, _, _, _, h => by simp [sweep] at h
+  | fuel + 1, t, queue, buffer, progress, tf, h => by
+    unfold sweep at h
+    cases hq : queue.reverse with
+    | nil =>
+      simp only [hq] at h
+      cases buffer with
+      | nil => simp only at h; cases h; exact TLe.refl _
+      | cons b bs =>
+        simp only at h
+        cases progress with
+        | false => simp at h
+        | true =>
+          simp only [cond_true] at h
+          exact sweep_above reg fuel t (b :: bs) [] false tf h
+    | cons last restRev =>
+      obtain ⟨ph, s⟩ := last
+      simp only [hq] at h
+      cases ho : processStmt reg t ph s with
+      | fail e => simp [ho] at h
+      | done t' =>
+        simp only [ho] at h
+        exact (processStmt_above reg t ph s t' (by simp [ho, Outcome.table?])).trans
+          (sweep_above reg fuel t' _ _ _ tf h)
+      | skipped t' =>
+        simp only [ho] at h
+        exact (processStmt_above reg t ph s t' (by simp [ho, Outcome.table?])).trans
+          (sweep_above reg fuel t' _ _ _ tf h)
+      | retry t' =>
+        simp only [ho] at h
+        exact (processStmt_above reg t ph s t' (by simp [ho, Outcome.table?])).trans
+          (sweep_above reg fuel t' _ _ _ tf h)
+
+theorem outer_above (reg : Registry) (prog : List (Name × KStmt)) :
+    ∀ (fuel : Nat) (t tf : Table), outer reg prog fuel t = .ok tf → TLe t tf
+  | 0, _, _, h => by simp [outer] at h
+  | fuel + 1, t, tf, h => by
+    unfold outer at h
+    cases hs : sweep reg (sweepFuel prog.length) { t with changed := false } prog [] false with
+    | error e => simp [hs] at h
+    | ok t' =>
+      have b2 : TLe t t' := sweep_above reg _ { t with changed := false } prog [] false t' hs
+      simp only [hs] at h
+      cases hc : t'.changed with
+      | true =>
+        simp only [hc, cond_true] at h
+        exact TLe.trans b2 (outer_above reg prog fuel t' tf h)
+      | false =>
+        simp only [hc, cond_false] at h
+        have htf : t' = tf := by simpa using h
+        subst htf
+        exact b2
+
+/-- the table the loop returns contains the initial entries, at least as high -/
+theorem outer_above_init (reg : Registry) (prog : List (Name × KStmt)) (t : Table)
+    (h : inferAll reg prog = .ok t) : TLe Table.init t := by
+  unfold inferAll at h
+  cases ho : outer reg prog (4 * countNames prog + 4) Table.init with
+  | error e => simp [ho, bind, Except.bind] at h
+  | ok t' =>
+    simp only [ho, bind, Except.bind] at h
+    cases hf : finalCheck reg t' prog with
+    | error e => simp [hf] at h
+    | ok _ =>
+      simp only [hf] at h
+      have htf : t' = t := by simpa using h
+      subst htf
+      exact outer_above reg prog _ _ _ ho
+
+theorem tle_antisymm {t t' : Table} (h1 : TLe t t') (h2 : TLe t' t) :
+    ∀ key, lookupE t.entries key = lookupE t'.entries key := by
+  intro key
+  cases hk : lookupE t.entries key with
+  | none =>
+    cases hk' : lookupE t'.entries key with
+    | none => rfl
+    | some k' =>
+      obtain ⟨k, hk2, _⟩ := h2 key k' hk'
+      rw [hk] at hk2; cases hk2
+  | some k =>
+    obtain ⟨k', hk', l1⟩ := h1 key k hk
+    obtain ⟨k'', hk'', l2⟩ := h2 key k' hk'
+    rw [hk] at hk''
+    cases hk''
+    have := le_antisymm _ _ l1 l2
+    cases this
+    exact hk'.symm
+
 end Dagrt.Kinds
